@@ -510,6 +510,14 @@ func c17closed(fn *ssa.Function) bool {
 // c17holds: some branch condition that is known whenever control reaches b satisfies test - in b's function, or (for
 // a helper all of whose calls are visible static call sites) at every one of its call sites.
 func c17holds(b *ssa.BasicBlock, test func(Fact) bool, depth int) bool {
+	return c17holdsX(b, test, depth, false)
+}
+
+// c17holdsX: c17holds; with join == true a block that several edges lead to (the body of `case a, b:`, the code after
+// `if x { ... } else if y { ... }`) also counts when the test is established on EVERY edge into it - by the branch
+// outcome of that edge or by what holds at its source. Only for tests about pure values (the atoms below); facts about
+// the nil-ness of a field may be stale at a join when one arm assigns the field.
+func c17holdsX(b *ssa.BasicBlock, test func(Fact) bool, depth int, join bool) bool {
 	if b == nil {
 		return false
 	}
@@ -518,16 +526,62 @@ func c17holds(b *ssa.BasicBlock, test func(Fact) bool, depth int) bool {
 			return true
 		}
 	}
+	if join && c17joinHolds(b, test, 0) {
+		return true
+	}
 	fn := b.Parent()
 	if depth >= 3 || !c17closed(fn) {
 		return false
 	}
 	for _, s := range gSites[fn] {
-		if _, isGo := s.(*ssa.Go); isGo || s.Parent() == fn || !c17holds(s.Block(), test, depth+1) {
+		if _, isGo := s.(*ssa.Go); isGo || s.Parent() == fn || !c17holdsX(s.Block(), test, depth+1, join) {
 			return false
 		}
 	}
 	return true
+}
+
+// c17joinHolds: b, or a block that dominates b, is a join all of whose incoming edges establish the test. Joins that
+// a back edge leads to (loop headers) are not looked at.
+func c17joinHolds(b *ssa.BasicBlock, test func(Fact) bool, d int) bool {
+	if d >= 3 {
+		return false
+	}
+	for cur := b; cur != nil; cur = cur.Idom() {
+		if len(cur.Preds) < 2 {
+			continue
+		}
+		all := true
+		for _, p := range cur.Preds {
+			if cur.Dominates(p) || !c17edgeHolds(p, cur, test, d) {
+				all = false
+				break
+			}
+		}
+		if all {
+			return true
+		}
+	}
+	return false
+}
+
+// c17edgeHolds: the test is established whenever control goes from p to its successor to.
+func c17edgeHolds(p, to *ssa.BasicBlock, test func(Fact) bool, d int) bool {
+	if n := len(p.Instrs); n > 0 && len(p.Succs) == 2 && p.Succs[0] != p.Succs[1] {
+		if iff, ok := p.Instrs[n-1].(*ssa.If); ok {
+			for _, f := range appendCondFacts(nil, iff.Cond, p.Succs[0] == to, 0) {
+				if test(f) {
+					return true
+				}
+			}
+		}
+	}
+	for _, f := range localFactsAt(p) {
+		if test(f) {
+			return true
+		}
+	}
+	return c17joinHolds(p, test, d+1)
 }
 
 func c17knownNil(b *ssa.BasicBlock, same func(ssa.Value) bool) bool {
@@ -546,7 +600,7 @@ func c17holdsAtom(b *ssa.BasicBlock, atom c17atom, depth int) bool {
 	if depth > 8 {
 		return false
 	}
-	return c17holds(b, func(f Fact) bool { return c17implies(f.Cond, f.Truth, nil, atom, depth+1) }, 0)
+	return c17holdsX(b, func(f Fact) bool { return c17implies(f.Cond, f.Truth, nil, atom, depth+1) }, 0, true)
 }
 
 // c17implies: whenever v evaluates to truth (and, if at != nil, control is in block at), the atom holds. v may be
@@ -746,28 +800,153 @@ func c17intCmp(v ssa.Value) (x ssa.Value, op token.Token, k int64, ok bool) {
 	return nil, 0, 0, false
 }
 
-// atomAcceptsGzip: the request's Accept-Encoding mentions gzip.
-func (k *c17kit) atomAcceptsGzip(v ssa.Value, truth bool) bool {
-	isArgs := func(cc *ssa.CallCommon) bool {
-		if len(cc.Args) != 2 {
-			return false
-		}
-		s, _ := constString(cc.Args[1])
-		return s == "gzip" && c17fromHeader(cc.Args[0], "Accept-Encoding", true)
+// c17fromAcceptEncoding: string s derives from the request's Accept-Encoding header, however it is read (Header.Get,
+// Header.Values, the map itself) and whatever strings.* / strconv.* steps cut it into tokens.
+func c17fromAcceptEncoding(s ssa.Value) bool {
+	const key = "Accept-Encoding"
+	ofRequest := func(h ssa.Value) bool {
+		return derives(h, func(w ssa.Value) bool { return typeStr(w.Type()) == "*net/http.Request" })
 	}
-	if call, ok := v.(*ssa.Call); ok && calleeName(&call.Call) == "strings.Contains" {
-		return truth && isArgs(&call.Call)
-	}
-	// strings.Index(ae, "gzip") >= 0 and its spellings
-	if x, op, n, ok := c17intCmp(v); ok {
-		if call, isC := x.(*ssa.Call); isC && calleeName(&call.Call) == "strings.Index" && isArgs(&call.Call) {
-			switch {
-			case (op == token.GEQ && n == 0) || (op == token.GTR && n == -1) || (op == token.NEQ && n == -1):
-				return truth
-			case (op == token.LSS && n == 0) || (op == token.LEQ && n == -1) || (op == token.EQL && n == -1):
-				return !truth
+	return derives(s, func(v ssa.Value) bool {
+		switch x := v.(type) {
+		case *ssa.Call:
+			for _, m := range []string{"Get", "Values"} {
+				if k, cc, ok := headerCall(x, m); ok && k == key {
+					return ofRequest(cc.Args[0])
+				}
+			}
+		case *ssa.Lookup:
+			if k, ok := constString(x.Index); ok && k == key && typeStr(x.X.Type()) == "net/http.Header" {
+				return ofRequest(x.X)
 			}
 		}
+		return false
+	})
+}
+
+// c17codingTest: v == truth establishes that a string cut out of the request's Accept-Encoding names the constant
+// coding K: strings.Contains / HasPrefix / HasSuffix / EqualFold(s, K), strings.Index(s, K) >= 0, s == K (the cases of
+// a `switch s`) and their negations.
+func c17codingTest(v ssa.Value, truth bool) (string, bool) {
+	args := func(cc *ssa.CallCommon) (string, bool) {
+		if len(cc.Args) != 2 {
+			return "", false
+		}
+		for _, p := range [][2]ssa.Value{{cc.Args[0], cc.Args[1]}, {cc.Args[1], cc.Args[0]}} {
+			if s, ok := constString(p[1]); ok && c17fromAcceptEncoding(p[0]) {
+				return s, true
+			}
+			if calleeName(cc) != "strings.EqualFold" {
+				break // only EqualFold is symmetric
+			}
+		}
+		return "", false
+	}
+	switch x := v.(type) {
+	case *ssa.Call:
+		switch calleeName(&x.Call) {
+		case "strings.Contains", "strings.HasPrefix", "strings.HasSuffix", "strings.EqualFold":
+			if s, ok := args(&x.Call); ok && truth {
+				return s, true
+			}
+		}
+		return "", false
+	case *ssa.BinOp:
+		if x.Op == token.EQL || x.Op == token.NEQ {
+			for _, p := range [][2]ssa.Value{{x.X, x.Y}, {x.Y, x.X}} {
+				if s, ok := constString(p[1]); ok && (x.Op == token.EQL) == truth && c17isString(p[0].Type()) && c17fromAcceptEncoding(p[0]) {
+					return s, true
+				}
+			}
+		}
+	}
+	// strings.Index(ae, K) >= 0 and its spellings
+	if x, op, n, ok := c17intCmp(v); ok {
+		if call, isC := x.(*ssa.Call); isC && calleeName(&call.Call) == "strings.Index" {
+			if s, isS := args(&call.Call); isS {
+				switch {
+				case (op == token.GEQ && n == 0) || (op == token.GTR && n == -1) || (op == token.NEQ && n == -1):
+					return s, truth
+				case (op == token.LSS && n == 0) || (op == token.LEQ && n == -1) || (op == token.EQL && n == -1):
+					return s, !truth
+				}
+			}
+		}
+	}
+	return "", false
+}
+
+func c17isString(t types.Type) bool {
+	b, ok := t.Underlying().(*types.Basic)
+	return ok && b.Info()&types.IsString != 0
+}
+
+// c17positiveWeight: v == truth establishes w > 0 for a number w parsed out of the request's Accept-Encoding (the
+// q-value of a coding): w > 0, w >= k (k > 0), w != 0, 0 < w and the negations of w <= 0, w < k, w == 0.
+func c17positiveWeight(v ssa.Value, truth bool) bool {
+	b, ok := v.(*ssa.BinOp)
+	if !ok {
+		return false
+	}
+	num := func(x ssa.Value) (float64, bool) {
+		c, isC := x.(*ssa.Const)
+		if !isC || c.Value == nil {
+			return 0, false
+		}
+		if bt, isB := c.Type().Underlying().(*types.Basic); !isB || bt.Info()&types.IsNumeric == 0 {
+			return 0, false
+		}
+		return c.Float64(), true
+	}
+	x, op := b.X, b.Op
+	k, isK := num(b.Y)
+	if !isK {
+		if k, isK = num(b.X); !isK {
+			return false
+		}
+		x = b.Y
+		m := map[token.Token]token.Token{token.LSS: token.GTR, token.GTR: token.LSS, token.LEQ: token.GEQ, token.GEQ: token.LEQ, token.EQL: token.EQL, token.NEQ: token.NEQ}
+		var has bool
+		if op, has = m[op]; !has {
+			return false
+		}
+	}
+	if bt, isB := x.Type().Underlying().(*types.Basic); !isB || bt.Info()&types.IsNumeric == 0 || !c17fromAcceptEncoding(x) {
+		return false
+	}
+	switch {
+	case (op == token.GTR && k >= 0) || (op == token.GEQ && k > 0) || (op == token.NEQ && k == 0):
+		return truth
+	case (op == token.LEQ && k >= 0) || (op == token.LSS && k > 0) || (op == token.EQL && k == 0):
+		return !truth
+	}
+	return false
+}
+
+// atomAcceptsGzip: the client accepts gzip: a coding cut out of the request's Accept-Encoding is found to name gzip
+// ("gzip", "x-gzip": any constant that contains gzip - today's test is strings.Contains(header, "gzip")), or it is the
+// wildcard "*" AND its weight is found to be positive. Any other coding (identity, deflate, br), and a wildcard whose
+// q-value is not looked at (`*;q=0` is how clients REFUSE every coding they did not list), is not acceptance.
+func (k *c17kit) atomAcceptsGzip(v ssa.Value, truth bool) bool {
+	at := func() *ssa.BasicBlock {
+		if i, ok := v.(ssa.Instruction); ok {
+			return i.Block()
+		}
+		return nil
+	}
+	if coding, ok := c17codingTest(v, truth); ok {
+		switch {
+		case strings.Contains(coding, "gzip"):
+			return true
+		case coding == "*":
+			// the wildcard counts where the weight is known to be positive when the coding is compared
+			return at() != nil && c17holdsX(at(), func(f Fact) bool { return c17positiveWeight(f.Cond, f.Truth) }, 0, true)
+		}
+		return false
+	}
+	if c17positiveWeight(v, truth) {
+		// `wildcard = q > 0` / `return q > 0` in the arm of the wildcard (the arm of gzip is covered by its own fact)
+		return at() != nil && c17holdsX(at(), func(f Fact) bool { s, ok := c17codingTest(f.Cond, f.Truth); return ok && s == "*" }, 0, true)
 	}
 	return false
 }
